@@ -20,6 +20,9 @@ use serde_crate::{Deserialize, Serialize};
 pub(crate) mod verif {
     use linfa::verif_hook as vh;
 
+    /// Loops over more rows than this are logged coarsely (`beginc` ... `end`, no `row` events)
+    pub(crate) const ROW_LOG_MAX: usize = 4096;
+
     /// One instrumented loop over the rows of a 1-d output array.
     #[derive(Clone, Copy)]
     pub(crate) struct Loop {
@@ -27,6 +30,7 @@ pub(crate) mod verif {
         site: &'static str,
         base: usize,
         step: isize,
+        rows: bool,
     }
 
     impl Loop {
@@ -38,10 +42,14 @@ pub(crate) mod verif {
             stride: isize,
             n: usize,
         ) -> Loop {
+            let rows = n <= ROW_LOG_MAX;
             if vh::enabled() {
                 vh::emit(&format!(
-                    "\"ev\":\"{}\",\"ph\":\"begin\",\"site\":\"{}\",\"n\":{}",
-                    kind, site, n
+                    "\"ev\":\"{}\",\"ph\":\"{}\",\"site\":\"{}\",\"n\":{}",
+                    kind,
+                    if rows { "begin" } else { "beginc" },
+                    site,
+                    n
                 ));
             }
             let step = stride * (std::mem::size_of::<T>().max(1) as isize);
@@ -50,12 +58,13 @@ pub(crate) mod verif {
                 site,
                 base: base as usize,
                 step: if step == 0 { 1 } else { step },
+                rows,
             }
         }
 
         /// the cell `elem` (a reference into the output array) is being processed
         pub(crate) fn row<T>(&self, elem: *const T) {
-            if vh::enabled() {
+            if self.rows && vh::enabled() {
                 let row = (elem as usize as isize - self.base as isize) / self.step;
                 vh::emit(&format!(
                     "\"ev\":\"{}\",\"ph\":\"row\",\"site\":\"{}\",\"row\":{}",
@@ -71,6 +80,19 @@ pub(crate) mod verif {
                     self.kind, self.site
                 ));
             }
+        }
+    }
+
+    /// the result of a whole-array reduction as the code uses it (`used`) next to the sequential
+    /// reduction of the same array recomputed here, on the calling thread (`fold`): exact bit patterns
+    pub(crate) fn value<F: linfa::Float>(site: &'static str, used: F, fold: F) {
+        if vh::enabled() {
+            vh::emit(&format!(
+                "\"ev\":\"kmeans.red\",\"ph\":\"val\",\"site\":\"{}\",\"used\":\"{:016x}\",\"fold\":\"{:016x}\"",
+                site,
+                used.to_f64().map(f64::to_bits).unwrap_or(0),
+                fold.to_f64().map(f64::to_bits).unwrap_or(0)
+            ));
         }
     }
 
@@ -350,6 +372,8 @@ impl<F: Float, R: Rng + Clone, DA: Data<Elem = F>, T, D: Distance<F>>
             #[cfg(linfa_verif)]
             verif::sum("fit", dists.len());
             let inertia = dists.sum();
+            #[cfg(linfa_verif)]
+            verif::value("fit", inertia, dists.sum());
 
             // We keep the centroids which minimize the inertia (defined as the sum of
             // the squared distances of the closest centroid for all observations)
@@ -465,6 +489,8 @@ impl<'a, F: Float + Debug, R: Rng + Clone, DA: Data<Elem = F>, T, D: 'a + Distan
         #[cfg(linfa_verif)]
         verif::sum("fit_with", dists.len());
         model.inertia = dists.sum() / F::cast(n_samples);
+        #[cfg(linfa_verif)]
+        verif::value("fit_with", model.inertia, dists.sum() / F::cast(n_samples));
         let dist = self
             .dist_fn()
             .distance(model.centroids.view(), new_centroids.view());
